@@ -65,6 +65,9 @@ pub enum SFrame {
     Blocked(bool),
     /// answer the get in flight (if any) with a message or with get-empty
     AnswerGet { empty: bool, len: u16 },
+    /// the beginning of a delivery to a known consumer: method, header announcing `size` bytes and
+    /// `sent` (< size) body bytes in 1-2 frames - leaves the channel's content mid-body
+    PartialContent { ch: u16, consumer: u16, size: u16, sent: u16 },
 }
 
 #[derive(Clone, Debug, Serialize, Deserialize, PartialEq)]
@@ -497,6 +500,46 @@ fn build_frames(c: &Case, chan_ids: &[u16], tags: &[Vec<String>]) -> Vec<AMQPFra
                     AMQPClass::Connection(Conn::Unblocked(connection::Unblocked {}))
                 },
             )),
+            SFrame::PartialContent { ch, consumer, size, sent } => {
+                let ci = pick(*ch, nch);
+                if tags[ci].is_empty() {
+                    continue;
+                }
+                let tag = tags[ci][pick(*consumer, tags[ci].len())].clone();
+                let size = 2 + (*size as usize % 3000);
+                let sent = (*sent as usize) % size;
+                dtag += 1;
+                let mut f = content_frames(
+                    chan_ids[ci],
+                    AMQPClass::Basic(Basic::Deliver(basic::Deliver {
+                        consumer_tag: tag,
+                        delivery_tag: dtag,
+                        redelivered: false,
+                        exchange: "x".into(),
+                        routing_key: "partial".into(),
+                    })),
+                    &amiquip::AmqpProperties::default(),
+                    &body_bytes(size, c.salt ^ (i as u64) << 8),
+                    &[sent.max(1) / 2 + 1, sent],
+                );
+                // keep method, header and the body frames that stay below `sent` bytes
+                let mut kept = Vec::new();
+                let mut have = 0usize;
+                for fr in f.drain(..) {
+                    match &fr {
+                        AMQPFrame::Body(_, b) => {
+                            if have + b.len() <= sent && sent > 0 {
+                                have += b.len();
+                                kept.push(fr);
+                            } else {
+                                break;
+                            }
+                        }
+                        _ => kept.push(fr),
+                    }
+                }
+                out.extend(kept);
+            }
             SFrame::AnswerGet { empty, len } => {
                 if !c.get_in_flight {
                     continue;
@@ -725,7 +768,12 @@ pub fn exec(c: &Case) -> Outcome {
                     valid_before += 1;
                 }
             }
-            Verdict::Unknown => unknown = true,
+            Verdict::Unknown => {
+                // from here on the property does not say what the client does: remember how much
+                // of the compliant reading precedes this frame
+                unknown = true;
+                break;
+            }
             Verdict::End(mut e) => {
                 // frames that follow the server's own Connection.Close are themselves a protocol
                 // violation, for which FrameUnexpected is the documented outcome
@@ -755,7 +803,10 @@ pub fn exec(c: &Case) -> Outcome {
         for (k, tag) in d.tags[i].iter().enumerate() {
             let want = model.deliveries.get(&(d.chan_ids[i], tag.clone())).cloned().unwrap_or_default();
             let got = &d.got[i][k];
-            if got.len() > want.len() || got.iter().zip(want.iter()).any(|(g, w)| g != w) {
+            // after an irregularity the property does not name, only the messages that precede it
+            // in the compliant reading are compared
+            let too_many = !unknown && got.len() > want.len();
+            if too_many || got.iter().zip(want.iter()).any(|(g, w)| g != w) {
                 return Outcome::fail(
                     "message-differs-from-compliant-reading",
                     format!("channel {} consumer {}: received {} messages {:?}, compliant reading yields {} {:?}\nframes: {}", d.chan_ids[i], tag, got.len(), got.iter().map(|b| b.len()).collect::<Vec<_>>(), want.len(), want.iter().map(|b| b.len()).collect::<Vec<_>>(), render_frames(&frames)),
@@ -767,12 +818,12 @@ pub fn exec(c: &Case) -> Outcome {
         }
         let want = model.returns.get(&d.chan_ids[i]).cloned().unwrap_or_default();
         let got = &d.returns[i];
-        if got.len() > want.len() || got.iter().zip(want.iter()).any(|(g, w)| g != w) {
+        if (!unknown && got.len() > want.len()) || got.iter().zip(want.iter()).any(|(g, w)| g != w) {
             return Outcome::fail("return-differs-from-compliant-reading", format!("channel {}: {} returns, compliant reading yields {}", d.chan_ids[i], got.len(), want.len()));
         }
     }
     if let Some(Ok(g)) = &d.get_result {
-        if model.get_answer.as_ref() != Some(g) {
+        if model.get_answer.as_ref() != Some(g) && !(unknown && model.get_answer.is_none()) {
             return Outcome::fail("get-differs-from-compliant-reading", format!("basic_get returned {:?} bytes, compliant reading {:?}", g.as_ref().map(|b| b.len()), model.get_answer.as_ref().map(|o| o.as_ref().map(|b| b.len()))));
         }
     }
@@ -868,14 +919,27 @@ fn strat(_t: Tier) -> BoxedStrategy<Case> {
         1 => (any::<u16>(), "[a-z ]{0,10}").prop_map(|(code, text)| SFrame::ConnectionClose { code, text }),
         1 => any::<bool>().prop_map(SFrame::Blocked),
         2 => (any::<bool>(), any::<u16>()).prop_map(|(empty, len)| SFrame::AnswerGet { empty, len }),
+        4 => (any::<u16>(), any::<u16>(), any::<u16>(), any::<u16>()).prop_map(|(ch, consumer, size, sent)| SFrame::PartialContent { ch, consumer, size, sent }),
     ];
-    (vec((0u8..=2, any::<bool>()), 1..=3), prop::bool::weighted(0.3), vec(frame, 1..25), any::<u64>(), any::<bool>())
-        .prop_map(|(channels, get_in_flight, frames, salt, glued)| Case {
-            channels,
-            get_in_flight,
-            frames,
-            salt,
-            glued,
+    // a valid prefix (so that violations strike in deep states), then arbitrary frames
+    let valid = prop_oneof![
+        6 => (any::<u16>(), any::<u16>(), any::<u16>(), vec(any::<u16>(), 0..4), gen::props()).prop_map(|(ch, consumer, len, chunks, props)| SFrame::ValidDeliver { ch, consumer, len, chunks, props }),
+        2 => (any::<u16>(), any::<u16>()).prop_map(|(ch, len)| SFrame::ValidReturn { ch, len }),
+        1 => Just(SFrame::Heartbeat { ch: ChSel::Zero }),
+        1 => any::<bool>().prop_map(SFrame::Blocked),
+        1 => (any::<bool>(), any::<u16>()).prop_map(|(empty, len)| SFrame::AnswerGet { empty, len }),
+        1 => (any::<u16>(), any::<u16>(), any::<bool>()).prop_map(|(ch, consumer, nowait)| SFrame::ServerCancel { ch, consumer, nowait }),
+    ];
+    (vec((0u8..=2, any::<bool>()), 1..=3), prop::bool::weighted(0.3), vec(valid, 0..12), vec(frame, 1..10), any::<u64>(), any::<bool>())
+        .prop_map(|(channels, get_in_flight, mut prefix, tail, salt, glued)| {
+            prefix.extend(tail);
+            Case {
+                channels,
+                get_in_flight,
+                frames: prefix,
+                salt,
+                glued,
+            }
         })
         .boxed()
 }
